@@ -52,3 +52,8 @@ func (fio *FileIO) Size() (int64, error) {
 	}
 	return stat.Size(), nil
 }
+
+func (fio *FileIO) Truncate(size int64) error {
+	// 文件以 O_APPEND 方式打开, 截断后的写入自动从新的末尾开始
+	return fio.fd.Truncate(size)
+}
